@@ -582,19 +582,24 @@ collect_virtual_bases(const CPPStructType *type,
  * constructors and the destructor of this class construct and destroy: these
  * are the direct base classes, as well as the virtual base classes of the
  * base classes, since it is up to the most derived class to take care of
- * those.
+ * those.  An abstract class can never be the most derived class, so it is
+ * not concerned with any of its virtual base classes.
  */
 void CPPStructType::
 get_constructed_bases(std::vector<CPPStructType *> &bases) const {
+  bool abstract = is_abstract();
+
   Derivation::const_iterator di;
   for (di = _derivation.begin(); di != _derivation.end(); ++di) {
     CPPStructType *base = (*di)._base->as_struct_type();
-    if (base != nullptr &&
+    if (base != nullptr && !(abstract && (*di)._is_virtual) &&
         std::find(bases.begin(), bases.end(), base) == bases.end()) {
       bases.push_back(base);
     }
   }
-  collect_virtual_bases(this, bases);
+  if (!abstract) {
+    collect_virtual_bases(this, bases);
+  }
 }
 
 /**
